@@ -267,7 +267,7 @@ Section Protocol.
     else if existsb (fun b => b) (m_skipif t) then mkTres OSkip w []
     else if has_dyn MAncFailed i dyn then mkTres OSkipPrevFailed w []
     (* persist.pytask_execute_task_setup *)
-    else if pf then mkTres OPersist (record_states E w t) []
+    else if pf then mkTres OPersist (if dry_run c then w else record_states E w t) []   (* a dry run records nothing *)
     (* execute.pytask_execute_task_setup *)
     else if has_dyn MWould i dyn then mkTres OWould w []
     else
